@@ -20,7 +20,7 @@ pub fn ok_write(r: &Rec) -> bool {
     }
 }
 fn is_lookup(r: &Rec) -> bool {
-    matches!(r.op, Op::Get { .. } | Op::Mut { .. } | Op::GetHold { .. })
+    matches!(r.op, Op::Get { .. } | Op::Mut { .. } | Op::GetHold { .. } | Op::GetYield { .. })
 }
 pub fn any_err(t: &Trace) -> bool {
     t.recs.iter().any(|r| matches!(r.res, Res::Err(_)))
@@ -214,10 +214,15 @@ pub fn o_lookup(p: &Program, t: &Trace) -> Vec<Finding> {
             if r.res != Res::Unit || !(w.ret < r.call) {
                 continue;
             }
-            if t.quiescent_at.iter().any(|q| r.ret < *q && *q < l.call) {
+            // a remove() takes effect when its queued deletion is applied (a quiescent point in
+            // between is required); a clear() has taken effect when it returns: the processor wiped
+            // the store and discarded the buffer before acknowledging it, so whatever was written
+            // (insert returned) before clear() was CALLED is gone for every lookup that begins
+            // after it returned
+            if (kind == "clear" && r.ret < l.call) || t.quiescent_at.iter().any(|q| r.ret < *q && *q < l.call) {
                 out.push(f(
                     &format!("lookup-stale-after-{}", kind),
-                    format!("{} returned {:?}, written before a {}() that had returned and been followed by a quiescent point before the lookup began", l.op.short(), v, kind),
+                    format!("{} returned {:?}, written before a {}() that had taken effect before the lookup began (clear: it had returned; remove: returned and a quiescent point followed)", l.op.short(), v, kind),
                 ));
             }
         }
